@@ -120,3 +120,32 @@ package vegeta
 //@                             && isV4(ips[j1]) != isV4(ips[j0])
 //@                             && (forall k int :: 0 <= k && k < j1 && isIP(ips[k]) ==> isV4(ips[k]) == isV4(ips[j0]))
 //@     decreases len(ips) - i
+
+// (*Buckets).UnmarshalText: the parser of the -buckets / hist[...] specification.
+// d(i) = pdur(trim(split_i(S, ",", i))) with S the text between the brackets.
+//@ spec func bspec(value []byte) string = string(value[1:len(value)-1])
+//@ spec func bdur(value []byte, i int) int = pdur(trim(split_i(bspec(value), ",", i)))
+//@ spec func bn(value []byte) int = split_n(bspec(value), ",")
+
+//@ func (*Buckets).UnmarshalText
+//@   property C12 C16
+//@   returns (err)
+//@   requires [non-nil] bs != nil
+//@   requires [empty-receiver] len(*bs) == 0
+//@   modifies *bs, (*bs)[cap]
+//@   ensures [rejects-unbracketed] len(value) < 2 ==> err != nil
+//@   ensures [bounds-preserved] err == nil && bdur(value, 0) <= 0 ==> len(*bs) == bn(value) &&
+//@              (forall k int :: 0 <= k && k < bn(value) ==> (*bs)[k] == bdur(value, k))
+//@   ensures [zero-bound-added] err == nil && bdur(value, 0) > 0 ==> len(*bs) == bn(value) + 1 && (*bs)[0] == 0 &&
+//@              (forall k int :: 1 <= k && k <= bn(value) ==> (*bs)[k] == bdur(value, k-1))
+//@   ensures [covers-zero] err == nil ==> len(*bs) >= 1 && (*bs)[0] <= 0
+//@   ensures [input-untouched] forall k int :: 0 <= k && k < len(value) ==> value[k] == old(value[k])
+//@   loop 1
+//@     invariant -1 <= rangeindex && rangeindex < bn(value) && bn(value) >= 1
+//@     invariant rangeindex >= 0 && bdur(value, 0) <= 0 ==> len(*bs) == rangeindex + 1 &&
+//@              (forall k int :: 0 <= k && k <= rangeindex ==> (*bs)[k] == bdur(value, k))
+//@     invariant rangeindex >= 0 && bdur(value, 0) > 0 ==> len(*bs) == rangeindex + 2 && (*bs)[0] == 0 &&
+//@              (forall k int :: 1 <= k && k <= rangeindex + 1 ==> (*bs)[k] == bdur(value, k-1))
+//@     invariant rangeindex == -1 ==> len(*bs) == 0
+//@     invariant fresh(*bs) || (ptr(*bs) == old(ptr(*bs)) && off(*bs) == old(off(*bs)) && cap(*bs) == old(cap(*bs)))
+//@     decreases bn(value) - rangeindex
